@@ -297,11 +297,15 @@ def parse_fn_block(header, lines):
                 if s.startswith('drop:'):
                     k['drop'] += s[5:].split()
                     continue
-                if s in ('requires', 'ensures') or re.match(r'bodysub\b', s) or re.match(r'loop \d+ invariant$', s):
+                if s.startswith('bodysub ') and len(s) > 9:
+                    v = s[8:].strip()
+                    sep = v[0]
+                    a_, r_ = v[1:].rstrip(sep).split(sep)[:2]
+                    k['bodysubs'].append((a_, r_))
+                    continue
+                if s in ('requires', 'ensures') or re.match(r'loop \d+ invariant$', s):
                     cur = s
                     sub[cur] = []
-                    if s.startswith('bodysub'):
-                        pass
                 elif cur is not None:
                     sub[cur].append(b)
             for ck, cl in sub.items():
@@ -474,6 +478,11 @@ class Generator:
                 text3 = re.sub(a_, r_, text3)
         if 'allpub' in opts:
             text3 = make_fields_pub(text3)
+        for o in opts:
+            if o.startswith('addfield='):   # E9: ghost field for the effect trace
+                nm, ty = o[9:].split(':', 1)
+                k = text3.rstrip().rfind('}')
+                text3 = text3[:k] + '    pub %s: %s,\n' % (nm, ty) + text3[k:]
         for o in opts:
             if o.startswith('derive='):
                 self.out.emit('#[derive(%s)]' % o[7:].replace(',', ', '))
